@@ -12,7 +12,9 @@ package main
 // another work group).  Lines come from the grammar of the property
 //     IP (sp|tab)+ name ((sp|tab)+ name)* [ws* '#' any]   |   name [ws* '#' any]
 // (IPv4 / IPv6 / IPv4-mapped / zoned / invalid addresses, 1..8 names, space/tab runs, comments with
-// and without a preceding blank incl. tab, trailing blanks), plus a byte-mutation stream.
+// and without a preceding blank incl. tab, trailing blanks; comment texts containing `x$$y`, `x$@$y`,
+// ` $$`, `#@#` / `#?#` / `##` after a blank or inside a word -- the D16 shapes), plus a byte-mutation
+// stream.
 
 import (
 	"bufio"
@@ -37,7 +39,10 @@ var (
 	c18PreCmt   = []string{"", "", " ", " ", "\t", "\t", "  ", " \t", "\t "}
 	c18Comments = []string{"", " note", "note", "# phishing", "#", "@#x", "?#sel", "$#x", "%#//scriptlet('a')", "@$#b", "@%#c", "@?#d", "?$#e", "@?$#f",
 		" 0.0.0.0 other.com", " $$script", "$@$", " a$$b", " !x", "#.banner", " ## x", "\xc2\xa0", " trailing  ", " tab\t", "\xff\x00", " x # y # z",
-		" \xe2\x80\x83", "@", "@#", "?", " $", "$", "#@#.x"}
+		" \xe2\x80\x83", "@", "@#", "?", " $", "$", "#@#.x",
+		// D16: cosmetic markers inside the comment never make the line cosmetic
+		" costs$$5", " costs $$5", " x$$y", " x$@$y", " a$@$b", " $$", " $@$", "$$", "$$x", "x$$", " #@#.x", " #?#sel", " #$#body{}", " #%#js", " ##.banner",
+		"\t$$", " a##b", " a#@#b", " a#?#b", "x##y", " $$ ## $@$", " 100$$ or 200$@$", "#$$", "#$@$", "@#$$", " see example.org##.banner"}
 )
 
 func c18Name(r *rng) string {
